@@ -64,7 +64,7 @@ def run(tier, lab):
     r = lib.tlc("MC_Knock", timeout=300, constants={"Devs": "{}", "NProbes": "3", "Sim": "FALSE"})
     lib.tlc_must_pass(r, "Knock (PortsExactlyDistinctProbed, ReportedOncePerBurst)")
     ck.add_tlc(r, "Knock: all interleaved bursts of <= 3 probes from 3 sources over tcp/udp (2 ports) and icmp, exhaustive")
-    for dev in ("tcp_knock_unreachable", "udp_group_is_tcp", "remove_while_iterating"):
+    for dev in ("tcp_knock_unreachable", "udp_group_is_tcp", "remove_while_iterating", "group_ignores_source_ip"):
         rd = lib.tlc("MC_Knock", timeout=200, constants={"Devs": '{"%s"}' % dev, "NProbes": "3", "Sim": "FALSE"}, want_scn=False)
         if rd.violated != "Inv":
             raise lib.Infra("deviation %s does not violate the Knock invariants in the model" % dev)
@@ -81,7 +81,8 @@ def run(tier, lab):
         probes = []
         for _ in range(rng.randint(20, 150)):
             pr = rng.choice(["tcp", "udp", "udp", "icmp"])
-            probes.append({"src": rng.choice(srcs), "proto": pr, "port": 0 if pr == "icmp" else rng.choice([1000, 1001, 2000 + rng.randint(0, 30)])})
+            src = rng.choice(srcs)
+            probes.append({"src": src, "via": "gw" if src in ("s1", "s2", "s4") else "own", "proto": pr, "port": 0 if pr == "icmp" else rng.choice([1000, 1001, 2000 + rng.randint(0, 30)])})
         scs.append({"id": len(scs), "probes": probes})
     results = lib.run_sharded(lab, "c20", [{"id": s["id"], "probes": s["probes"]} for s in scs], shards=min(lib.NCPU, 8), timeout=1200)
     byid = {x["id"]: x for x in results}
@@ -99,7 +100,7 @@ def run(tier, lab):
                            "quick), -simulate for 8, seeded bursts of 20..150 probes from 1..4 sources; UniqueSet: every transition + "
                            "all sequences up to the length bound"})
     ck.sample({"probes": scs[10]["probes"], "spec_reports": scs[10].get("spec_reports")})
-    ck.assumptions += ["probes are injected synchronously (hook VerifInject) into one real Canary per scenario; the detector's real 5 s "
+    ck.assumptions += ["sources s1, s2 (and s4 in the large bursts) share one source hardware address (a gateway), s3 has its own", "probes are injected synchronously (hook VerifInject) into one real Canary per scenario; the detector's real 5 s "
                        "quiet timer is waited for twice", "per source the union of its reports is compared with the set probed: one "
                        "report per protocol class or one per source are both accepted"]
     return ck.finish()
